@@ -35,6 +35,7 @@ package main
 
 import (
 	"fmt"
+	"path/filepath"
 	"sort"
 	"strconv"
 	"strings"
@@ -772,6 +773,21 @@ func main() {
 	}
 	rng := xvlib.NewRng(args.Seed)
 	thorough := args.Tier == "thorough"
+
+	// 0. the corpus (minimised past failures and hand-written corner cases) runs first
+	corpus, _ := filepath.Glob(filepath.Join("corpus", args.Prop, "*.ops"))
+	sort.Strings(corpus)
+	for _, f := range corpus {
+		for _, l := range xvlib.ReadLines(f) {
+			out.Emit(l, h.execLine(l))
+			if strings.HasPrefix(l, "sched") {
+				out.Count("schedules:corpus")
+			}
+		}
+	}
+	if len(corpus) == 0 {
+		out.Stats.Notes = append(out.Stats.Notes, "corpus/"+args.Prop+" not found (run from the framework root)")
+	}
 
 	// 1. every schedule of two threads, for each conflict pattern
 	two := [][2]string{
